@@ -2,6 +2,7 @@
 import hashlib, hmac as pyhmac, struct
 from checks.common import *
 from checks.cryptstream import finish_proof
+from checks import pystreebog
 
 def md4(msg):
     """RFC 1320, straightforward independent implementation"""
@@ -35,13 +36,22 @@ def run(R):
     quick = R.tier == "quick"
     ops, want = [], []
     def add(op, w): ops.append(op); want.append(w)
+    # Streebog oracle: independent structure, exact integer arithmetic, tables as printed from the tree, validated by RFC 6986 / RFC 7836
+    R.lean_prepare()
+    sb = pystreebog.from_genvals(R.genvals)
+    std = dict(STD)
+    if sb is not None and sb.self_test():
+        std["gost256"] = lambda m: sb.digest(m, 256); std["gost512"] = lambda m: sb.digest(m, 512)
+        R.cov["streebog_oracle"] = "python, tables from the tree, RFC vectors pass"
+    else:
+        R.cov["streebog_oracle"] = "unavailable (tables missing or RFC vectors fail): Streebog decided by model correspondence and vectors only"
     maxlen = 300 if quick else 1100
     lens = sorted(set(list(range(0, 140)) + [n + d for n in range(128, maxlen + 1, 64) for d in (-9, -8, -1, 0, 1, 47, 55, 56, 57)] + list(range(maxlen - 3, maxlen + 1))))
     if not quick: lens = list(range(0, maxlen + 1))
     for alg in ["md4", "md5", "sha1", "sha256", "sha512", "gost256", "gost512"]:
         for n in lens:
             msg = bytes(R.rng.randrange(256) for _ in range(n))
-            w = STD[alg](msg).hex() if alg in STD else None
+            w = std[alg](msg).hex() if alg in std else None
             add("H %s %d %s" % (alg, R.rng.randrange(16), hx(msg)), w)
             # two-way splits (all in thorough, sampled in quick), random multi-way splits
             splits = range(0, n + 1) if (not quick and n <= 300) else sorted({R.rng.randrange(0, n + 1) for _ in range(4)} | {0, n, n // 2, min(n, 64), min(n, 63), max(0, n - 64)})
@@ -51,13 +61,28 @@ def run(R):
                 cuts = sorted(R.rng.randrange(0, n + 1) for _ in range(R.rng.randrange(2, 12)))
                 parts = [msg[a:b] for a, b in zip([0] + cuts, cuts + [n])]
                 add("H %s %d %s" % (alg, R.rng.randrange(16), " ".join(hx(p) for p in parts)), w)
+    # arithmetic-edge messages: 8-byte words drawn from all-ones / all-zero / top-bit / low-bit patterns, so that carries run through
+    # whole words of the 512-bit checksum (Streebog) and the additions modulo 2^32 / 2^64 of the other digests see extreme operands (seeded/C16)
+    EDGE = [b"\xff" * 8, b"\xff" * 8, b"\x00" * 8, b"\x80" + b"\x00" * 7, b"\x00" * 7 + b"\x80", b"\x01" + b"\x00" * 7, b"\xfe" + b"\xff" * 7, b"\xff" * 7 + b"\x7f"]
+    for alg in ["md4", "md5", "sha1", "sha256", "sha512", "gost256", "gost512"]:
+        for k in range(40 if quick else 400):
+            nw = R.rng.choice([8, 16, 16, 17, 24, 32, 40]); tail = R.rng.randrange(0, 8)
+            if k < 6: msg = b"\xff" * [64, 127, 128, 129, 192, 256][k]
+            else: msg = b"".join(R.rng.choice(EDGE) if R.rng.random() < 0.85 else bytes(R.rng.randrange(256) for _ in range(8)) for _ in range(nw)) + b"\xff" * tail
+            w = std[alg](msg).hex() if alg in std else None
+            cut = R.rng.randrange(0, len(msg) + 1)
+            add("H %s %d %s" % (alg, R.rng.randrange(16), hx(msg)), w)
+            add("H %s %d %s %s" % (alg, R.rng.randrange(16), hx(msg[:cut]), hx(msg[cut:])), w)
     for msg, d256, d512 in GOST_KAT:
         add("H gost256 0 " + hx(msg), d256); add("H gost512 0 " + hx(msg), d512)
     for kl in (range(0, 201) if not quick else list(range(0, 70)) + [100, 127, 128, 129, 200]):
         key = bytes(R.rng.randrange(256) for _ in range(kl)); text = bytes(R.rng.randrange(256) for _ in range(R.rng.randrange(0, 200)))
         add("HM sha1 %s %s" % (hx(key), hx(text)), pyhmac.new(key, text, hashlib.sha1).hexdigest())
         add("HM sha256 %s %s" % (hx(key), hx(text)), pyhmac.new(key, text, hashlib.sha256).hexdigest())
-        if 32 <= kl <= 64: add("HM gost256 %s %s" % (hx(key), hx(text)), None)
+        if 32 <= kl <= 64:
+            add("HM gost256 %s %s" % (hx(key), hx(text)), sb.hmac256(key, text).hex() if "gost256" in std else None)
+            ek = b"\xff" * kl; et = b"\xff" * R.rng.choice([64, 128, 130, 200])
+            add("HM gost256 %s %s" % (hx(ek), hx(et)), sb.hmac256(ek, et).hex() if "gost256" in std else None)
     add("HM gost256 000102030405060708090a0b0c0d0e0f101112131415161718191a1b1c1d1e1f 0126bdb87800af214341456563780100",
         "a1aa5f7de402d7b3d323f2991c8d4534013137010a83754fd0af6d7cd4922ed9")     # RFC 7836 / R 50.1.113-2016
     for dk in (range(1, 101) if not quick else [1, 2, 31, 32, 33, 63, 64, 65, 96, 100]):
@@ -88,7 +113,8 @@ def run(R):
     R.cov["distinct_nontrivial"] = len(set(ops))
     R.cov["rule"] = ("MD4/MD5/SHA-1/SHA-256/SHA-512/Streebog-256/512 over message lengths 0..%d (every length in thorough) x two-way and random multi-way splits x "
                      "random buffer alignments; HMAC-SHA1/SHA256/Streebog keys 0..200; PBKDF2 dkLen 1..100, c in {1,2,3,50}, fast-path grid; oracles: hashlib/hmac, "
-                     "an independent MD4, RFC 6986 / RFC 7836 vectors; non-trivial = distinct ops" % maxlen)
+                     "an independent MD4, an independent Streebog/HMAC-Streebog (exact integer arithmetic, tables printed from the tree, validated by RFC 6986 / RFC 7836 vectors), "
+                     "arithmetic-edge messages (all-ones / all-zero / single-bit 64-bit words); non-trivial = distinct ops" % maxlen)
     R.cov["samples"] = [{"op": ops[i][:200], "impl": il[i][:200], "model": ml[i][:200]} for i in R.rng.sample(range(len(ops)), 4)]
     finish_proof(R, ok, badthm, bad, diffs, "primitives")
 
